@@ -326,13 +326,17 @@ func (l *commitLog) EarliestOffsetAfterTimestamp(timestamp int64) (int64, error)
 	// is greater than or equal to the target timestamp. In this case, search
 	// the next segment if there is one. If there isn't, the timestamp is
 	// beyond the end of the log so return the next assignable offset.
-	if idx < len(l.segments)-1 {
+	if idx < len(l.segments) {
+		// Nothing in the candidate segment is recent enough, so the answer is
+		// the first message of the next segment, if it has any.
 		seg = l.segments[idx]
 		entry, err := seg.findEntryByTimestamp(timestamp)
-		if err != nil {
+		if err == nil {
+			return entry.Offset, nil
+		}
+		if err != ErrEntryNotFound && err != io.EOF {
 			return 0, errors.Wrap(err, "failed to find log entry for timestamp")
 		}
-		return entry.Offset, nil
 	}
 	return l.segments[len(l.segments)-1].NextOffset(), nil
 }
